@@ -18,6 +18,7 @@ POOL = {
     "I": ("Idx", "i", (7,), None),
     "Y": ("Year", "k", (1991, 1989, 1990), int),  # consecutive range, listed unsorted
     "M": ("Mixed", "m", ("pre-1990", 1990, 2000), None),  # untyped items of mixed type (in memory only)
+    "F": ("Frac", "f", (0.5, 2.5, 1.5), float),  # float items (a column identified through its items is then a float column)
     "G": ("Age", "g", (9, 10, 11), int),  # as text ("10" < "11" < "9") ordered differently than as numbers
 }
 
